@@ -88,12 +88,15 @@ type interp struct {
 	p        *Prog
 	f        *ssa.Function
 	maxPaths int
+	maxVisit int // how often a block may be entered on one path (default 2: loops run at most once)
 	depth    int
 	out      []outcome
 	// hook: evaluate a call symbolically; return nil for the default (opaque term)
 	callHook func(st *istate, c *ssa.Call, args []*aval) *aval
 	// hook: decide a binary operation on symbolic operands; nil for the default
 	binopHook func(st *istate, x *ssa.BinOp, a, b *aval) *aval
+	// hook: decide whether a map/string range has another element (iteration k, 1-based)
+	nextHook func(st *istate, nx *ssa.Next, rangeOperand *aval, k int) *aval
 }
 
 type istate struct {
@@ -103,11 +106,12 @@ type istate struct {
 	calls []string
 	notes []string // scratch area for hooks (copied on fork)
 	dead  bool     // a failing type assertion was executed: the path panics
+	rbase map[*ssa.BasicBlock]int // visits of a range loop's header before its current activation
 	count map[*ssa.BasicBlock]int
 }
 
 func (s *istate) clone() *istate {
-	n := &istate{env: map[ssa.Value]*aval{}, mem: map[ssa.Value]*aval{}, count: map[*ssa.BasicBlock]int{}}
+	n := &istate{env: map[ssa.Value]*aval{}, mem: map[ssa.Value]*aval{}, count: map[*ssa.BasicBlock]int{}, rbase: map[*ssa.BasicBlock]int{}}
 	for k, v := range s.env {
 		n.env[k] = v
 	}
@@ -120,6 +124,10 @@ func (s *istate) clone() *istate {
 	n.path = append([]*ssa.BasicBlock{}, s.path...)
 	n.calls = append([]string{}, s.calls...)
 	n.notes = append([]string{}, s.notes...)
+	n.rbase = map[*ssa.BasicBlock]int{}
+	for k, v := range s.rbase {
+		n.rbase[k] = v
+	}
 	return n
 }
 
@@ -129,7 +137,7 @@ func (in *interp) run(params map[*ssa.Parameter]*aval) []outcome {
 	if in.maxPaths == 0 {
 		in.maxPaths = 4000
 	}
-	st := &istate{env: map[ssa.Value]*aval{}, mem: map[ssa.Value]*aval{}, count: map[*ssa.BasicBlock]int{}}
+	st := &istate{env: map[ssa.Value]*aval{}, mem: map[ssa.Value]*aval{}, count: map[*ssa.BasicBlock]int{}, rbase: map[*ssa.BasicBlock]int{}}
 	for prm, v := range params {
 		st.env[prm] = v
 	}
@@ -167,7 +175,11 @@ func (in *interp) block(st *istate, b *ssa.BasicBlock, pred *ssa.BasicBlock) {
 		return
 	}
 	st.count[b]++
-	if st.count[b] > 2 {
+	lim := in.maxVisit
+	if lim == 0 {
+		lim = 2
+	}
+	if st.count[b] > lim {
 		in.out = append(in.out, outcome{loop: true, path: st.path, calls: st.calls})
 		return
 	}
@@ -313,6 +325,9 @@ func (in *interp) instr(st *istate, ins ssa.Instruction) {
 					if f, ok := m.fields[name]; ok {
 						st.mem[x] = f
 					}
+				} else if ok && m.k == aSym {
+					// a symbolic struct stored in the variable: name its field after it
+					st.mem[x] = symv(m.sym+"."+name, deref(x.Type()))
 				}
 			}
 		}
@@ -378,6 +393,21 @@ func (in *interp) instr(st *istate, ins ssa.Instruction) {
 		}
 		st.env[x] = symv(v.String()+".("+typeName(x.AssertedType)+")", x.AssertedType)
 	case *ssa.Extract:
+		if nx, ok := x.Tuple.(*ssa.Next); ok {
+			if x.Index == 0 && in.nextHook != nil {
+				var op *aval
+				if rg, ok := nx.Iter.(*ssa.Range); ok {
+					op = in.get(st, rg.X)
+				}
+				if r := in.nextHook(st, nx, op, st.count[nx.Block()]-st.rbase[nx.Block()]); r != nil {
+					st.env[x] = r
+					return
+				}
+			}
+			// the k-th element visited by this range on this path gets its own name
+			st.env[x] = symv(fmt.Sprintf("%s@%dr%d#%d", nx.Name(), st.count[nx.Block()], st.count[nx.Block()]-st.rbase[nx.Block()], x.Index), x.Type())
+			return
+		}
 		t := in.get(st, x.Tuple)
 		if t.k == aStruct {
 			if f, ok := t.fields[fmt.Sprint(x.Index)]; ok {
@@ -408,7 +438,14 @@ func (in *interp) instr(st *istate, ins ssa.Instruction) {
 			}
 		}
 		st.env[x] = symv(v.String()+"["+lo+":"+hi+"]", x.Type())
-	case *ssa.IndexAddr, *ssa.Index, *ssa.Lookup, *ssa.MakeSlice, *ssa.MakeMap, *ssa.MakeClosure, *ssa.Range, *ssa.Next, *ssa.MapUpdate, *ssa.DebugRef, *ssa.RunDefers, *ssa.Defer:
+	case *ssa.Range:
+		for _, ref := range referrers(x) {
+			if nx, ok := ref.(*ssa.Next); ok {
+				st.rbase[nx.Block()] = st.count[nx.Block()]
+			}
+		}
+		st.env[x] = symv("range("+in.get(st, x.X).String()+")", x.Type())
+	case *ssa.IndexAddr, *ssa.Index, *ssa.Lookup, *ssa.MakeSlice, *ssa.MakeMap, *ssa.MakeClosure, *ssa.Next, *ssa.MapUpdate, *ssa.DebugRef, *ssa.RunDefers, *ssa.Defer:
 		if v, ok := ins.(ssa.Value); ok {
 			ops := []string{}
 			for _, op := range ins.Operands(nil) {
